@@ -322,15 +322,19 @@ class Gridder(GeospatialGrid):
     def _calculate_segment_lengths(
         self, lats, lons, dateline_crossing_idx, dateline_crossing_sign
     ):
+        crossing_lat = dateline_crossing_latitude(
+            lats, lons, dateline_crossing_idx, dateline_crossing_sign
+        )
+
         first_segment_length = great_circle_distance(
             lats[dateline_crossing_idx],
             lons[dateline_crossing_idx],
-            lats[dateline_crossing_idx],
+            crossing_lat,
             np.pi if dateline_crossing_sign == -1 else -np.pi,
         )
 
         second_segment_length = great_circle_distance(
-            lats[dateline_crossing_idx],
+            crossing_lat,
             -np.pi if dateline_crossing_sign == -1 else np.pi,
             lats[dateline_crossing_idx + 1],
             lons[dateline_crossing_idx + 1],
@@ -361,7 +365,13 @@ class Gridder(GeospatialGrid):
         lats_first_part = np.concatenate(
             (
                 lats[: dateline_crossing_idx + 1],
-                np.array([lats[dateline_crossing_idx]]),
+                np.array(
+                    [
+                        dateline_crossing_latitude(
+                            lats, lons, dateline_crossing_idx, dateline_crossing_sign
+                        )
+                    ]
+                ),
             )
         )
         altitudes_first_part = (
@@ -443,7 +453,13 @@ class Gridder(GeospatialGrid):
 
         lats_second_part = np.concatenate(
             (
-                np.array([lats[dateline_crossing_idx]]),
+                np.array(
+                    [
+                        dateline_crossing_latitude(
+                            lats, lons, dateline_crossing_idx, dateline_crossing_sign
+                        )
+                    ]
+                ),
                 lats[dateline_crossing_idx + 1 :],
             )
         )
@@ -1456,6 +1472,21 @@ def calculate_line_parameters(x: NDArray, y: NDArray) -> tuple[NDArray, NDArray]
     intercepts = y[:-1] - slopes * x[:-1]
 
     return slopes, intercepts
+
+
+def dateline_crossing_latitude(lats, lons, crossing_idx, crossing_sign):
+    """Latitude at which the segment starting at point ``crossing_idx`` meets the
+    dateline, on the same straight latitude/longitude line that is used to find
+    the intersections with all other grid lines."""
+    lon_start = lons[crossing_idx]
+    # end longitude continued across the dateline instead of jumping by 2 pi
+    lon_end = lons[crossing_idx + 1] - crossing_sign * 2 * np.pi
+    lon_dateline = np.pi if crossing_sign == -1 else -np.pi
+    if lon_end == lon_start:
+        # segment runs along the dateline itself
+        return lats[crossing_idx]
+    fraction = (lon_dateline - lon_start) / (lon_end - lon_start)
+    return lats[crossing_idx] + fraction * (lats[crossing_idx + 1] - lats[crossing_idx])
 
 
 def crosses_dateline(lon1, lon2):
